@@ -16,7 +16,7 @@ import SphericalVerif.Lemmas.DDef2
       * step 5, both columns: m' = 0 → −1 (inner and top cell) and m' = −1 → −2 (the cell H²(−2,2)) — the second
         column is not exercised by ℓ ≤ 1;
     and the assembly reads z_α², z_γ² and their conjugates.  `H_ell2` gives the nine wedge cells in closed form,
-    `d_ell2` / `D_ell2` the 25 entries of `Wigner.d` / `Wigner.D`.  NOT proved: ℓ ≥ 3 at generic β. -/
+    `d_ell2` / `D_ell2` the 25 entries of `Wigner.d` / `Wigner.D`.  ℓ ≥ 3 at generic β: see `Props/DocD.lean` (`objd_eq_docd`) and `Props/DAll.lean` (`D_all`). -/
 noncomputable section
 namespace DDef2
 open Model Spec Horner DDef
